@@ -13,11 +13,12 @@ import (
 // C11 Quorum arithmetic is safe for every validator set.
 //
 // Oracle: uint64 arithmetic written from the statement. Three workloads:
-//  (a) totals sweep: for each total T a one-validator set {T} and two two-validator sets that split T so
-//      that one member weighs exactly floor(2T/3) (must NOT be a quorum alone) resp. exactly
-//      floor(2T/3)+1 (must be a quorum alone);
-//  (b) random multi-validator sets with random / boundary subsets, pairwise quorum intersection;
-//  (c) random Count/CountByIdx call sequences with repeats against a set model.
+//
+//	(a) totals sweep: for each total T a one-validator set {T} and two two-validator sets that split T so
+//	    that one member weighs exactly floor(2T/3) (must NOT be a quorum alone) resp. exactly
+//	    floor(2T/3)+1 (must be a quorum alone);
+//	(b) random multi-validator sets with random / boundary subsets, pairwise quorum intersection;
+//	(c) random Count/CountByIdx call sequences with repeats against a set model.
 func init() { register("C11", "exploration", runC11) }
 
 const maxTotal = uint64(1<<31 - 1)
